@@ -16,7 +16,7 @@ else
   rsync -a --exclude .cache --exclude .git --exclude seeded --exclude evidence --exclude replays --exclude .bin /verif/ $SNAP/
 fi
 export GOCACHE=/verif/.cache/go-build
-for d in $(ls seeded | grep -E '^C[0-9]+-[a-z]$' | grep -E -- "$RE"); do
+for d in $(ls seeded | grep -E '^C[0-9]+-[a-z][0-9]?$' | grep -E -- "$RE"); do
   props=$(echo $d | cut -d- -f1)
   [ "$d" = "C04-b" ] && props="C04 C10"
   [ "$d" = "C01-v" ] && props="C01 C10"
